@@ -65,18 +65,24 @@ def _param_reaches_result(fi, param, other_params):
 def check_app_level_wrappers(rep, rule):
     repo = rep.repo
     app = repo.mod(APP)
+    from .c13 import find_wrap_loop, deref
     init = app.func('Application.__init__')
-    loops = [s for s in stmts_of(init.node) if isinstance(s, ast.For) and
-             any(isinstance(c, ast.Call) and call_name(c) == '_safe_wrap_wsgi' for c in ast.walk(s))]
-    if len(loops) != 1:
+    lf, loops, site, env = find_wrap_loop(app, init)     # in __init__ itself or in a method it calls
+    if len(loops) != 1 or not isinstance(loops[0], ast.For):
         raise AnalysisError('Application.__init__: the WSGI wrapping loop was not found (%d candidates)' % len(loops))
-    it = _strip_order(loops[0].iter)
-    src = it
-    if isinstance(it, ast.Name):
-        src = _single_value(init.node, it.id)
-        if src is None:
-            raise AnalysisError('Application.__init__: the list of wrapper sources (%s) is not a single assignment' % it.id)
-        src = _strip_order(src)
+
+    def resolve(e):
+        for _ in range(6):
+            e2 = _strip_order(deref(lf, e))
+            if isinstance(e2, ast.Name) and e2.id in env:      # parameter of an extracted method: the caller's argument
+                e2 = _strip_order(deref(init, env[e2.id]))
+            if e2 is e:
+                break
+            e = e2
+        return e
+    src = resolve(loops[0].iter)
+    if isinstance(src, ast.Name):
+        raise AnalysisError('Application.__init__: the list of wrapper sources (%s) is not a single assignment' % src.id)
     direct = 'self.middlewares' in norm(src)
     ok, why = False, ''
     if isinstance(src, ast.Call) and isinstance(src.func, ast.Name):
